@@ -22,7 +22,7 @@ set_option linter.style.longLine false
 
 namespace Rsa.Lemmas.C14
 
-open Rsa.Noise
+open Rsa.Noise Rsa.Gen.C14
 
 /-! ### list sums -/
 
@@ -112,6 +112,12 @@ theorem nodup_uniq (l : List Nat) : (uniq l).Nodup := by
     refine ⟨?_, ih.filter _⟩
     simp [List.mem_filter]
 
+theorem uniq_length_perm (l1 l2 : List Nat) (h : l1.Perm l2) :
+    (uniq l1).length = (uniq l2).length := by
+  apply List.Perm.length_eq
+  apply (List.perm_ext_iff_of_nodup (nodup_uniq _) (nodup_uniq _)).mpr
+  intro a; rw [mem_uniq, mem_uniq]; exact h.mem_iff
+
 section field
 variable {K : Type} [Field K] [LinearOrder K] [IsStrictOrderedRing K]
 
@@ -193,13 +199,13 @@ def quad (p : Nat) (S : Mat K) (v : Nat → K) : K :=
   ∑ j ∈ Finset.range p, ∑ k ∈ Finset.range p, v j * S j k * v k
 
 theorem eyeB2raw_nonneg (rows : List (Row K)) (p : Nat) : 0 ≤ eyeB2raw rows p := by
-  unfold eyeB2raw rsum2
+  unfold eyeB2raw lwB2 rsum2
   apply div_nonneg _ (Nat.cast_nonneg _)
   rw [rsum_eq_finset]
   apply Finset.sum_nonneg; intro j _
   rw [rsum_eq_finset]
   apply Finset.sum_nonneg; intro k _
-  unfold eyeS
+  unfold eyeS lwS
   beta_reduce
   by_cases h0 : rows.length = 0
   · have : rows = [] := List.eq_nil_of_length_eq_zero h0
@@ -299,10 +305,10 @@ theorem estimateC_congr (m : Method) (r1 r2 : List (Row K)) (dof : K) (p : Nat)
     estimateC m r1 dof p = estimateC m r2 dof p := by
   have hv : sdVarHat r1 dof = sdVarHat r2 dof := by
     funext a b
-    simp only [sdVarHat, sdS2Mean, sdSMean, sdStd, sdVar, covFullC, h1, h2, h3]
+    simp only [sdVarHat, sdS2Mean, sdSMean, sdStd, sdVar, sdS, covFullC, h1, h2, h3]
   funext j k
   cases m <;>
-  simp only [hv, estimateC, covFullC, varianceC, covEyeC, covSDiagC, eyeS, eyeD2, eyeB2, eyeB2raw,
+  simp only [hv, estimateC, covFullC, varianceC, covEyeC, covSDiagC, sdS, eyeS, eyeD2, eyeB2, eyeB2raw,
     eyeM, sdLambda, sdNum, sdDen, sdVarHat, sdSMean, sdS2Mean, sdStd, sdVar, h1, h2, h3]
   rfl
 
@@ -338,7 +344,7 @@ theorem length_eq_of_balanced (obs : List (Obs K)) (R : Nat) (h : balancedR (gro
 
 theorem traceMean_full_nonneg (rows : List (Row K)) (dof : K) (hdof : 0 < dof) (p : Nat) :
     0 ≤ traceMean (covFullC rows dof) p := by
-  unfold traceMean covFullC
+  unfold traceMean covFullC fullNorm
   apply div_nonneg _ (Nat.cast_nonneg _)
   apply Finset.sum_nonneg; intro j _
   exact div_nonneg (gram_diag_nonneg rows j) (le_of_lt hdof)
@@ -363,8 +369,8 @@ theorem freezeRows_eq (p : Nat) (rows : List (Row α)) : freezeRows p rows = row
   | nil => rfl
   | cons r rs ih => simp only [List.map_cons, List.zipWith_cons_cons, ih, rowOfFb_eq]
 
-variable [Add α] [Sub α] [Mul α] [Div α] [Zero α] [One α] [NatCast α]
-variable [LT α] [DecidableLT α] [Min α] [Max α] [Rsa.HasSqrt α]
+variable [Add α] [Sub α] [Mul α] [Div α] [Neg α] [Zero α] [One α] [NatCast α]
+variable [LT α] [DecidableLT α] [LE α] [DecidableLE α] [Min α] [Max α] [Rsa.HasSqrt α]
 
 theorem estimateCL_eq (m : Method) (rows : List (Row α)) (dof : α) (p : Nat) :
     estimateCL m rows dof p = matList p (estimateC m rows dof p) := by
